@@ -54,6 +54,35 @@ theorem C02_alignTo_ge (s a : Nat) : s ≤ alignTo s a := alignTo_ge s a
 theorem C02_alignTo_mod (s a : Nat) (ha : 0 < a) : alignTo s a % a = 0 := alignTo_mod s a ha
 theorem C02_alignTo_least (s a m : Nat) (ha : 0 < a) (hm : m % a = 0) (hs : s ≤ m) : alignTo s a ≤ m :=
   alignTo_least s a m ha hm hs
+/-- `align_to` fixes every multiple of the alignment … -/
+theorem C02_alignTo_of_mod (s a : Nat) (h : s % a = 0) : alignTo s a = s := by
+  unfold alignTo; split <;> simp_all
+
+/-- … hence is idempotent (aligning twice pads once) -/
+theorem C02_alignTo_idem (s a : Nat) : alignTo (alignTo s a) a = alignTo s a := by
+  by_cases ha : a = 0
+  · subst ha; simp [alignTo]
+  · exact C02_alignTo_of_mod _ _ (alignTo_mod s a (Nat.pos_of_ne_zero ha))
+
+/-- `align_to` is monotone in the offset: a later member never lands before an earlier one -/
+theorem C02_alignTo_mono (s s' a : Nat) (h : s ≤ s') : alignTo s a ≤ alignTo s' a := by
+  by_cases ha : a = 0
+  · subst ha; simpa [alignTo] using h
+  · have hpos := Nat.pos_of_ne_zero ha
+    exact alignTo_least s a _ hpos (alignTo_mod s' a hpos) (Nat.le_trans h (alignTo_ge s' a))
+
+/-- closed form: `align_to(s, a) = ⌈s / a⌉ · a` — the number C's layout rule uses -/
+theorem C02_alignTo_closed_form (s a : Nat) (ha : 0 < a) : alignTo s a = (s + a - 1) / a * a := by
+  have hmod := alignTo_mod s a ha
+  have hge := alignTo_ge s a
+  have hlt := alignTo_lt s a ha
+  obtain ⟨k, hk⟩ := Nat.dvd_of_mod_eq_zero hmod
+  have hq : (s + a - 1) / a = k := by
+    apply Nat.div_eq_of_lt_le
+    · rw [Nat.mul_comm]; rw [hk] at hge; omega
+    · rw [Nat.mul_comm, Nat.mul_succ]; rw [hk] at hlt; omega
+  rw [hq, hk, Nat.mul_comm]
+
 theorem C02_blob_exact (l : Layout) (ffi : Bool) (h3 : l.align ≠ 3) (hdvd : l.size % (max l.align 1) = 0) :
     (blob l ffi).size = l.size ∧ (blob l ffi).align = max l.align 1 := blob_exact l ffi h3 hdvd
 theorem C02_forSize_dvd (ptr size : Nat) : size % (forSize ptr size).align = 0 ∧ (forSize ptr size).size = size :=
